@@ -84,24 +84,24 @@ def gen_instruction(r: Rng, addr: int, opcode: Optional[int] = None, allow_contr
     return None
 
 
-def gen_program(r: Rng, n_instr: int, allow_control: bool = True) -> Tuple[List[int], List[int]]:
+def gen_program(r: Rng, n_instr: int, allow_control: bool = True, base: int = CODE_LO) -> Tuple[List[int], List[int]]:
     """Straight-line-ish program at CODE_LO: returns (bytes, instruction start offsets).
     Control transfers are kept (both replicas must agree wherever they go); near jumps are
     re-targeted into the code region half of the time so that loops and calls really run."""
     code: List[int] = []
     starts: List[int] = []
     while len(starts) < n_instr and len(code) < (CODE_HI - CODE_LO - 16):
-        addr = CODE_LO + len(code)
+        addr = base + len(code)
         ins = gen_instruction(r, addr, allow_control=allow_control)
         if ins is None:
             continue
         op = ins[1] if ins[0] in PRES and len(ins) > 1 else ins[0]
         if op in (0x02, 0x04, 0x14, 0x15, 0x16, 0x17) and len(ins) >= 3 and r.chance(2, 3) and starts:
-            tgt = CODE_LO + r.choice(starts)
+            tgt = base + r.choice(starts)
             ins[-2], ins[-1] = tgt & 0xFF, (tgt >> 8) & 0xFF
         if op in (0x03, 0x05) and len(ins) >= 4 and r.chance(2, 3) and starts:
-            tgt = CODE_LO + r.choice(starts)
-            ins[-3], ins[-2], ins[-1] = tgt & 0xFF, (tgt >> 8) & 0xFF, 0x00
+            tgt = base + r.choice(starts)
+            ins[-3], ins[-2], ins[-1] = tgt & 0xFF, (tgt >> 8) & 0xFF, (tgt >> 16) & 0x0F
         if 0x12 <= op <= 0x1F and op not in (0x14, 0x15, 0x16, 0x17) and len(ins) >= 2:
             ins[-1] = r.range(0, 12)          # short relative displacements stay near the code
         starts.append(len(code))
@@ -128,7 +128,7 @@ def gen_state(r: Rng) -> Dict[str, Any]:
 
 def image_of(scn: Dict[str, Any]) -> List[Tuple[int, List[int]]]:
     st = scn["state"]
-    return [(CODE_LO, scn["code"]), (DATA, st["data"]), (STACK_S - 0x40, st["stack"]), (STACK_U - 0x40, st["stack"]),
+    return [(scn.get("base", CODE_LO), scn["code"]), (DATA, st["data"]), (STACK_S - 0x40, st["stack"]), (STACK_U - 0x40, st["stack"]),
             (INT0, st["imem"])]
 
 
@@ -185,12 +185,12 @@ def py_record(emu, bus, pc: int, opcode: int, ln: int, err) -> list:
             1 if emu.state.halted else 0, sorted([a, v] for a, v in bus.writes.items()), err]
 
 
-def py_run(emu, bus, n: int) -> List[list]:
+def py_run(emu, bus, n: int, lo: int = CODE_LO, hi: int = CODE_HI) -> List[list]:
     from sc62015.pysc62015.emulator import RegisterName as R
     out: List[list] = []
     for _ in range(n):
         pc = emu.regs.get(R.PC) & 0xFFFFF
-        if not (CODE_LO <= pc <= CODE_HI) or emu.state.halted:
+        if not (lo <= pc <= hi) or emu.state.halted:
             break
         opcode = bus.rd(pc)
         bus.writes = {}
